@@ -209,6 +209,22 @@ _leaf("vec4", "Vector4", lambda: Vector4(0.0, 1.0, 2.0, 3.5), _vec(0.0, 1.0, 2.0
 _leaf("quat", "Quaternion", lambda: Quaternion(0.5, 0.5, 0.5, 0.5), _vec(0.5, 0.5, 0.5, 0.5))
 _leaf("quat-ident", "Quaternion", lambda: Quaternion(0.0, 0.0, 0.0, 1.0), _vec(0.0, 0.0, 0.0, 1.0))
 
+BASE_LEAVES = list(LEAVES)  # the leaves that take part in the full tree product
+
+# Notation-significant characters: the full product of presence/absence (2^7 - 1 non-empty combinations), each in three
+# orders: A = separated by filler in the middle of the string, B = adjacent, first char at position 0 and last char at the
+# end (quote -> backslash -> newline adjacency, trailing backslash/newline), C = adjacent in reverse order (newline directly
+# BEFORE backslash/quote).  These "xstr" leaves occur alone and with each-choice placement in containers (enumerate_trees).
+SIG_CHARS = [("apos", "'"), ("dq", '"'), ("bs", "\\"), ("nl", "\n"), ("cr", "\r"), ("nul", "\x00"), ("u8", "é")]
+XSTR_LEAVES: List[str] = []
+for _mask in range(1, 1 << len(SIG_CHARS)):
+    _sel = [(n, c) for i, (n, c) in enumerate(SIG_CHARS) if _mask >> i & 1]
+    _kind = "string:" + "+".join(n for n, _ in _sel)
+    _chars = [c for _, c in _sel]
+    for _o, _s in (("A", "a" + "b".join(_chars) + "c"), ("B", "".join(_chars)), ("C", "".join(reversed(_chars)) + "z")):
+        _leaf(f"xstr:{_kind[7:]}:{_o}", _kind, (lambda s=_s: s), ("string", _s))
+        XSTR_LEAVES.append(f"xstr:{_kind[7:]}:{_o}")
+
 for _name, (_k, _b, _e) in LEAVES.items():  # the alphabet's own consistency (dates: hand formula vs aware arithmetic)
     _v = _b()
     if not isinstance(_v, (Vector2, Vector3, Vector4, Quaternion)):
@@ -407,7 +423,10 @@ def _leaf_outcome(codec: str, name: str):
 
 def check_tree(part: Part, tz: str, codec: str, spec, count=True):
     witness = {"family": "tree", "tz": tz, "codec": codec, "tree": spec}
-    if codec == "xml" and any(LEAVES[n][0] == "string-CR" for n in leaves_of(spec)):
+    if codec == "xml" and any(LEAVES[n][2][0] == "string" and "\x00" in LEAVES[n][2][1] for n in leaves_of(spec)):
+        part.count("skipped_xml_illegal_nul_out_of_domain")  # XML 1.0 cannot carry U+0000 at all
+        return
+    if codec == "xml" and any(LEAVES[n][2][0] == "string" and "\r" in LEAVES[n][2][1] for n in leaves_of(spec)):
         # XML 1.0 line-end normalisation turns a literal CR into LF in *any* conforming parser; strings carrying a CR
         # are outside the XML route's domain (the codec sentence of the statement names binary and notation).
         part.count("skipped_xml_cr_out_of_domain")
@@ -587,11 +606,29 @@ def _each_choice_pairs(xs: List[Any]):
     return [(xs[i], xs[(i + 1) % len(xs)]) for i in range(len(xs))] if len(xs) > 1 else []
 
 
+def xstr_trees() -> List[Any]:
+    """The notation-significant string product: each string alone, and each-choice in containers -- as the only element, as
+    first and second sibling (next string of the product / a base leaf), and one level further down.  Map keys here never
+    contain a newline, so the notation-newline clause is evaluated for every one of these trees."""
+    keys = [k for k in KEYS if "\n" not in k]
+    nk = len(keys)
+    xs = [["L", n] for n in XSTR_LEAVES]
+    base = [["L", n] for n in BASE_LEAVES]
+    out = list(xs)
+    for i, x in enumerate(xs):
+        nxt = xs[(i + 1) % len(xs)]
+        b = base[i % len(base)]
+        k0, k1 = keys[i % nk], keys[(i + 1 + (i // nk) % (nk - 1)) % nk]
+        out += [["A", [x]], ["M", [[k0, x]]], ["A", [x, nxt]], ["M", [[k0, x], [k1, nxt]]], ["A", [b, x]], ["M", [[k0, b], [k1, x]]],
+                ["A", [["M", [[k1, x]]]]], ["M", [[k0, ["A", [x, b]]]]]]
+    return out
+
+
 def enumerate_trees(quick: bool) -> List[Any]:
-    level1 = [["L", n] for n in LEAVES] + [["A", []], ["M", []]]
+    level1 = [["L", n] for n in BASE_LEAVES] + [["A", []], ["M", []]]
     level2 = _containers(level1, _each_choice_pairs(level1))
     level3 = _containers(level2, _each_choice_pairs(level2), key_off=3)
-    trees = level1 + level2 + level3
+    trees = level1 + level2 + level3 + xstr_trees()
     if not quick:
         full2 = _containers([], [(a, b) for a in level1 for b in level1], key_off=1)
         lvl3b = _containers(full2, _each_choice_pairs(full2), key_off=2)
@@ -1146,7 +1183,7 @@ def _work(unit):
             for codec in CODECS:
                 check_tree(part, tz, codec, spec)
         if lo == 0:
-            part.sample({"family": "tree", "tz": tz, "tree": _TREES[min(hi - 1, len(LEAVES) + 5)]}, limit=1)
+            part.sample({"family": "tree", "tz": tz, "tree": _TREES[min(hi - 1, len(BASE_LEAVES) + 5)]}, limit=1)
     elif kind == "us":
         _, lo, hi = unit
         _set_tz("UTC")
@@ -1195,10 +1232,11 @@ def run(run: Run):
         "EventQueueManager.inject_message (fresh serializer / manager per case); hist: for every template with >= 2 blocks or a Variable "
         "block, every (m_small, m_full) pair (trailing-block omissions, counts 0, one Variable block left out) x all 25 ordered pairs of "
         "{serialize small/full, deserialize dict small/full, deserialize xml full} on one serializer instance vs a fresh instance per "
-        "operation, + 4 ordered pairs of inject_message on one EventQueueManager; tree: all %d LLSD trees of depth <= %d over %d leaves / containers {array,map} of size 0..2 "
+        "operation, + 4 ordered pairs of inject_message on one EventQueueManager; tree: all %d LLSD trees (incl. the 2^7-1 presence/absence combinations of apostrophe, double quote, backslash, LF, CR, NUL, non-ASCII x 3 orders as string leaves, "
+        "each alone and each-choice in arrays/maps) of depth <= %d over %d base leaves / containers {array,map} of size 0..2 "
         "(each-choice sibling pairs%s; %d map keys cycled) x %d codecs x %d process time zones; us: every microsecond value 0..%d of one "
         "date x {binary, notation, xml}. distinct_nontrivial = distinct (template, block counts, row tag) + distinct (tz, codec, tree "
-        "shape, leaf-kind set)" % (len(names), len(_TREES), depth, len(LEAVES), "" if quick else ", full cross product at depth 2",
+        "shape, leaf-kind set)" % (len(names), len(_TREES), depth, len(BASE_LEAVES), "" if quick else ", full cross product at depth 2",
                                    len(KEYS), len(CODECS), len(TZS), us_hi - 1))
     run.assumptions += [
         "message value domain = what LLSD/XML can carry: finite floats, str without code points forbidden by XML 1.0 (and without "
